@@ -15,7 +15,7 @@ PROPS = ("C06",)
 
 def plan(tier, seed):
     specs = ec.plan_e2e(seed, 6, MIX, 180 if tier == "quick" else 1800, nwcap=12 if tier == "quick" else 24)
-    if tier == \"thorough\":
+    if tier == "thorough":
         specs += ec.fixture_specs()
     return specs
 
